@@ -369,6 +369,11 @@ def materializeWith (supplied : List (String × ColStats)) (target : Option Stri
   let (tf, cv') ← cv.call df
   pure { tf := tf, stats := updateEmbDim tf supplied, conv := cv' }
 
+/-- the converter `materialize()` builds: canonical name table + statistics fitted on `df` -/
+def fitConv (vc : String → List Key → List Key) (target : Option String)
+    (embedders : String → String → List (Val F)) (df : DF L F) : Conv F :=
+  Conv.init df.colToStype target (fitStats vc target df) embedders
+
 /-- `Dataset(df, col_to_stype, target_col).materialize()` -/
 def materialize (vc : String → List Key → List Key) (target : Option String)
     (embedders : String → String → List (Val F)) (df : DF L F) : Option (Materialized F) :=
